@@ -266,6 +266,10 @@ func TestCheck(t *testing.T) {
 					run.Eval(1)
 					run.Add("sequences_redis_"+k.Kind, 1)
 					if v := runCase(rs.Backend(), k, states, ft); v != nil {
+						if strings.HasPrefix(v.Sig, "inconclusive/") {
+							run.Inconclusive(v.What)
+							continue
+						}
 						run.Violation(v.Sig, v.What, k)
 					}
 				}
@@ -321,15 +325,28 @@ func TestChild(t *testing.T) {
 	cases := inmemCases(run)
 	states := map[string]struct{}{}
 	ft := map[string]int64{}
-	synctest.Test(t, func(t *testing.T) {
-		for i := idx; i < len(cases); i += total {
-			k := cases[i]
-			res.Evals++
-			res.Counters["sequences_inmem_"+k.Kind]++
-			if v := runCase(kvmodel.InmemBubble(), k, states, ft); v != nil {
-				res.Violation(v.Sig, v.What, k)
+	// a fresh bubble (fresh virtual clock) every 500 cases
+	var mine []kase
+	for i := idx; i < len(cases); i += total {
+		mine = append(mine, cases[i])
+	}
+	for from := 0; from < len(mine); from += 500 {
+		batch := mine[from:min(from+500, len(mine))]
+		synctest.Test(t, func(t *testing.T) {
+			for _, k := range batch {
+				res.Evals++
+				res.Counters["sequences_inmem_"+k.Kind]++
+				if v := runCase(kvmodel.InmemBubble(), k, states, ft); v != nil {
+					if strings.HasPrefix(v.Sig, "inconclusive/") {
+						res.Inconcl = append(res.Inconcl, v.What)
+						continue
+					}
+					res.Violation(v.Sig, v.What, k)
+				}
 			}
-		}
+		})
+	}
+	synctest.Test(t, func(t *testing.T) {
 		// (ii) parked waiter, then the record expires
 		if idx < 4 {
 			for _, exp := range []int{1, 2, 4} {
@@ -414,7 +431,7 @@ func parkedWaiterInmem(exp, nw int) *kvmodel.Vio {
 	s := inmem.New()
 	ctx, cancel := context.WithCancel(context.Background())
 	defer cancel()
-	at := time.Now().Add(time.Duration(2*exp-1) * kvmodel.Unit / 2)
+	at := time.Now().Add(time.Duration(2*exp-1) * kvmodel.BubbleUnit / 2)
 	rec, err := s.Put(ctx, kvs.Record{Key: "a", Value: []byte("x"), ExpiresAt: &at})
 	if err != nil {
 		return &kvmodel.Vio{Sig: "inmem/Put/error", What: err.Error()}
@@ -428,13 +445,13 @@ func parkedWaiterInmem(exp, nw int) *kvmodel.Vio {
 		return &kvmodel.Vio{Sig: "inmem/Wait/returned-while-alive", What: fmt.Sprintf("a waiter on the current version of a live record returned %v", <-res)}
 	}
 	if exp > 1 { // not woken early
-		time.Sleep(time.Duration(exp-1) * kvmodel.Unit)
+		time.Sleep(time.Duration(exp-1) * kvmodel.BubbleUnit)
 		synctest.Wait()
 		if len(res) != 0 {
 			return &kvmodel.Vio{Sig: "inmem/Wait/returned-before-expiry", What: fmt.Sprintf("a waiter returned %v before the record expired", <-res)}
 		}
 	}
-	time.Sleep(kvmodel.Unit)
+	time.Sleep(kvmodel.BubbleUnit)
 	synctest.Wait()
 	if len(res) != nw {
 		cancel()
@@ -469,7 +486,7 @@ func parkedWaiterRedis(run *report.Run, rs *kvmodel.RedisServer, exp int) *kvmod
 		}
 		return false
 	})
-	defer rs.MR.Server().SetPreHook(nil)
+	defer rs.InstallDefaultHook()
 	res := make(chan error, 1)
 	go func() { res <- be.S.WaitForVersionChange(ctx, "a", rec.Version) }()
 	waitPolls := func(n int64) bool { // logical progress: n more polls reached the server
